@@ -148,6 +148,7 @@ namespace SpyneModel.Derive
 def Op.derives : Op → Bool
   | .append .. => false
   | .insert .. => false
+  | .subclass .. => false      -- (a class statement registers with the class it extends)
   | _ => true
 
 theorem good_opProg_derive (F : Facts15) [DeepCopy F] (hF : F.mandRule = .copies) (fuel : Nat) (op : Op) (hop : op.derives = true)
@@ -168,8 +169,7 @@ theorem good_opProg_derive (F : Facts15) [DeepCopy F] (hF : F.mandRule = .copies
     exact Good.map _ (good_arrayOp _ _ _ _ _ _ _) (fun a ha id e => by cases e; exact ha)
   | mandatory src =>
     exact Good.map _ ((goodMand F hF fuel).mandatory src) (fun a ha id e => by cases e; exact ha)
-  | subclass base name ns fields perm attrs mixins asMixin =>
-    exact Good.map _ (good_subclassOp _ _ _ _ _ _ _ _ _) (fun a ha id e => by cases e; exact ha)
+  | subclass base name ns fields perm attrs mixins asMixin => simp [Op.derives] at hop
   | append c name t => simp [Op.derives] at hop
   | insert c idx name t => simp [Op.derives] at hop
   | xmlattr src =>
